@@ -84,6 +84,9 @@ func newGenParser(name string, g *gen.Grammar, flags []string) *genParser {
 	return gp
 }
 
+// notCompiling counts generated parsers left out because they did not compile.
+var notCompiling int
+
 var grammarVarRe = regexp.MustCompile(`(?m)^var (\w+) = &\w+\s*\{\s*\n\s*rules:`)
 
 const glueTemplate = `package %[1]s
@@ -276,22 +279,56 @@ func buildParserWorld(scratch, pigeonBin string, specs []*genParser, race bool) 
 	if len(ok) == 0 || rejected*4 > len(specs) {
 		fatalHarness("pigeon rejected %d of %d generated grammars; the generator and the tool disagree about what is valid", rejected, len(specs))
 	}
-	// 2. main package
-	var b strings.Builder
-	b.WriteString("package main\n\nimport (\n\t\"verifsim/parsersim\"\n")
-	for _, gp := range ok {
-		fmt.Fprintf(&b, "\t_ \"pw/%s\"\n", gp.Name)
-	}
-	b.WriteString(")\n\nfunc main() { parsersim.Serve() }\n")
-	must(os.WriteFile(filepath.Join(dir, "main.go"), []byte(b.String()), 0o644))
-	// 3. instrument
-	pats := make([]string, 0, len(ok))
-	for _, gp := range ok {
-		pats = append(pats, "./"+gp.Name)
-	}
-	res, err := rewrite.Packages(dir, rewrite.Options{MapOrder: true, SyncSeam: true, Steps: true, PrintSink: true, SkipPrefix: "verif_"}, pats...)
-	if err != nil {
-		fatalHarness("parser-world rewrite: %v", err)
+	// 2. main package, 3. instrument. A generated parser that does not compile is
+	// the tool's defect, not this harness's and not these properties' subject:
+	// such parsers are left out, loudly; trouble in the glue is ours and fatal.
+	var res *rewrite.Result
+	for attempt := 0; ; attempt++ {
+		var b strings.Builder
+		b.WriteString("package main\n\nimport (\n\t\"verifsim/parsersim\"\n")
+		for _, gp := range ok {
+			fmt.Fprintf(&b, "\t_ \"pw/%s\"\n", gp.Name)
+		}
+		b.WriteString(")\n\nfunc main() { parsersim.Serve() }\n")
+		must(os.WriteFile(filepath.Join(dir, "main.go"), []byte(b.String()), 0o644))
+		pats := make([]string, 0, len(ok))
+		for _, gp := range ok {
+			pats = append(pats, "./"+gp.Name)
+		}
+		var err error
+		res, err = rewrite.Packages(dir, rewrite.Options{MapOrder: true, SyncSeam: true, Steps: true, PrintSink: true, SkipPrefix: "verif_"}, pats...)
+		if err == nil {
+			break
+		}
+		msg := err.Error()
+		if attempt > 0 || !strings.Contains(msg, "type errors before rewriting") || strings.Contains(msg, "verif_glue.go") {
+			fatalHarness("parser-world rewrite: %v", err)
+		}
+		bad := map[string]string{}
+		for _, m := range regexp.MustCompile(`(p\d+)/g\.go:\d+:\d+: ([^;]*)`).FindAllStringSubmatch(msg, -1) {
+			if _, dup := bad[m[1]]; !dup {
+				bad[m[1]] = m[2]
+			}
+		}
+		var keep []*genParser
+		shown := 0
+		for _, gp := range ok {
+			if why, isBad := bad[gp.Name]; isBad {
+				if shown < 3 {
+					fmt.Printf("NOTE: the parser pigeon generated for %s does not compile (%s); left out. Flags %v, grammar:\n%s\n", gp.Name, why, gp.Flags, head(gp.Text, 400))
+					shown++
+				}
+				os.RemoveAll(filepath.Join(dir, gp.Name))
+				continue
+			}
+			keep = append(keep, gp)
+		}
+		fmt.Printf("NOTE: %d of %d generated parsers do not compile and were left out of this run\n", len(ok)-len(keep), len(ok))
+		notCompiling += len(ok) - len(keep)
+		if len(bad) == 0 || len(keep) == 0 {
+			fatalHarness("parser-world rewrite: %v", err)
+		}
+		ok = keep
 	}
 	// 4. build
 	bin := filepath.Join(scratch, "parsersim.bin")
